@@ -244,25 +244,40 @@ def flexFilt (N : Nat) (q : List α) (v lastVal : α) : M α := do
     let f1 ← getIdx q (l - 1)
     pure (c1 * (v + lastVal) / two + b1 * f1 + c3 * f2)
 
+/-- TrendFlex: Σ_i (filt − q[len−1−i]) over the window of filter values, newest first -/
+def tflexDsum (q : List α) (filt : α) : M α :=
+  forRange 0 q.length (nat 0 : α) (fun d i => do
+    let x ← getIdx q (q.length - 1 - i)
+    pure (d + (filt - x)))
+
+/-- ReFlex: the same sum against the line through the newest and the oldest filter value -/
+def rflexDsum (q : List α) (filt slope : α) : M α :=
+  forRange 0 q.length (nat 0 : α) (fun d i => do
+    let x ← getIdx q (q.length - 1 - i)
+    pure (d + ((filt + nat i * slope) - x)))
+
+/-- mean deviation over N, leaky mean square, normalised output (or `dflt` when the mean square is not positive) -/
+def flexEmit (N : Nat) (lastM : α) (v : α) (q : List α) (dsum : α) (dflt : Option α) : M (FlexState α) := do
+  let dsum := dsum / nat N
+  let ms0 := dec 4 100 * sq dsum + dec 96 100 * lastM
+  if nat 0 < ms0 then do
+    let o := dsum / Transc.sqrt ms0
+    assertFinite o
+    pure { lastVal := v, lastM := ms0, q := q, out := some o }
+  else pure { lastVal := v, lastM := ms0, q := q, out := dflt }
+
+def flexTrim (N : Nat) (q : List α) : List α := if N ≤ q.length then q.tail else q
+
 def tflexCore (N : Nat) : Core α where
   σ := FlexState α
   init := { lastVal := nat 0, lastM := nat 0, q := [], out := none }
   step s v := do
     let lastVal := if s.q.isEmpty then v else s.lastVal
-    let q := if N ≤ s.q.length then s.q.tail else s.q
-    let wl : α := nat N
+    let q := flexTrim N s.q
     let filt ← flexFilt N q v lastVal
     let q := q ++ [filt]
-    let dsum ← forRange 0 q.length (nat 0 : α) (fun d i => do
-      let x ← getIdx q (q.length - 1 - i)
-      pure (d + (filt - x)))
-    let dsum := dsum / wl
-    let ms0 := dec 4 100 * sq dsum + dec 96 100 * s.lastM
-    if nat 0 < ms0 then do
-      let o := dsum / Transc.sqrt ms0
-      assertFinite o
-      pure { lastVal := v, lastM := ms0, q := q, out := some o }
-    else pure { lastVal := v, lastM := ms0, q := q, out := some (nat 0) }
+    let dsum ← tflexDsum q filt
+    flexEmit N s.lastM v q dsum (some (nat 0))
   out s := pure s.out
   size s := s.q.length
 
@@ -271,22 +286,13 @@ def rflexCore (N : Nat) : Core α where
   init := { lastVal := nat 0, lastM := nat 0, q := [], out := none }
   step s v := do
     let lastVal := if s.q.isEmpty then v else s.lastVal
-    let q := if N ≤ s.q.length then s.q.tail else s.q
-    let wl : α := nat N
+    let q := flexTrim N s.q
     let filt ← flexFilt N q v lastVal
     let q := q ++ [filt]
     let fr ← front q
-    let slope := (fr - filt) / wl
-    let dsum ← forRange 0 q.length (nat 0 : α) (fun d i => do
-      let x ← getIdx q (q.length - 1 - i)
-      pure (d + ((filt + nat i * slope) - x)))
-    let dsum := dsum / wl
-    let ms0 := dec 4 100 * sq dsum + dec 96 100 * s.lastM
-    if nat 0 < ms0 then do
-      let o := dsum / Transc.sqrt ms0
-      assertFinite o
-      pure { lastVal := v, lastM := ms0, q := q, out := some o }
-    else pure { lastVal := v, lastM := ms0, q := q, out := s.out }
+    let slope := (fr - filt) / nat N
+    let dsum ← rflexDsum q filt slope
+    flexEmit N s.lastM v q dsum s.out
   out s := pure s.out
   size s := s.q.length
 
